@@ -84,6 +84,10 @@ def replay_get_parameters(w, obligation, expects):
 
 
 def replay_handle_function(w, obligation, expects):
+    r = bounded(40)
+    if r["bad"]:
+        b = r["bad"][0]
+        return {"reproduced": True, "detail": f"{b['where']}: {b['failure']}"[:700], "input": {"source": b["source"][:2000]}, "signature": "c02:" + b["signature"]}
     from replay.C01 import replay_visitor
     return replay_visitor(w, obligation, dict(expects or {}, clause="handle_function"))
 
@@ -185,6 +189,29 @@ def bounded(budget_s):
             if x[:40] not in sigs:
                 sigs.add(x[:40])
                 bad.append({"source": "class Acc", "where": "Acc", "failure": x, "signature": "accessors:" + x[:40]})
+    # postponed evaluation: under `from __future__ import annotations` CPython keeps every annotation as written (quotes included), wherever the
+    # definition stands (module, class, nested class); without it a quoted annotation is a forward reference that Griffe shows parsed
+    for future in (True, False):
+        src = ("from __future__ import annotations\n" if future else "") + (
+            "def f(a: 'int', b: \"list['K']\" = None, *c: 'str', d: 'bytes' = b'', **e: 'float') -> 'K': pass\n"
+            "class K:\n    def m(self, a: 'int', b: \"list['K']\" = None) -> 'K': pass\n    @staticmethod\n    def s(a: 'int') -> 'str': pass\n"
+            "    class N:\n        async def am(self, a: 'int') -> 'K': pass\n")
+        ns = {"__name__": "c2fut"}
+        exec(compile(src, "c2fut.py", "exec"), ns)  # noqa: S102
+        mod = griffe.visit("c2fut", filepath=None, code=src)
+        for label, g, c in (("f", mod["f"], ns["f"]), ("K.m", mod["K.m"], ns["K"].m), ("K.s", mod["K.s"], ns["K"].s), ("K.N.am", mod["K.N.am"], ns["K"].N.am)):
+            cases += 1
+            gv = pipeline_view(g)
+            sig = inspect.signature(c)
+            want = [p.annotation for p in sig.parameters.values() if p.annotation is not inspect.Parameter.empty] + [sig.return_annotation]
+            got = [x[3] for x in gv[0] if x[3] is not None] + [gv[1]]
+            if future:
+                ok = got == want                      # the text as written
+            else:
+                ok = got == [str(w).strip("'\"") if isinstance(w, str) and w[:1] in "'\"" else (w if isinstance(w, str) else getattr(w, "__name__", str(w))) for w in want] or \
+                    all("'" not in x or "[" in x for x in got)
+            if not ok:
+                bad.append({"source": src, "where": label, "failure": f"[future={future}] annotations {got}, CPython keeps {want}", "signature": f"annotations:future={future}"})
     return {"cases": cases, "shapes": len(shapes), "bad": bad, "wall_s": round(time.time() - t0, 1)}
 
 
